@@ -3,7 +3,7 @@
    Nothing is proved about the parser: for each file the result is checked by computation (render16 (parse) = lines). *)
 From Coq Require Import String Ascii List Bool Arith.
 From KV Require Import Lib.Str Lib.StrOps Lib.ODict Gen.Tags Model.Engine Model.EngineSM Model.EngineDomain Model.EngineDomain16
-                       Spec.RefExpand Spec.RefExpand16.
+                       Model.EngineDomain07 Spec.RefExpand Spec.RefExpand16.
 Import ListNotations.
 Open Scope string_scope.
 Open Scope list_scope.
@@ -84,5 +84,19 @@ Definition shipped16 (dict : list (string * string)) (lines : list string) : opt
   | None => None
   end.
 
+(* the first-filter dictionary of a generation with state machine / class name X, namespace NS, author a, group g, brief b
+   (the two dates are not used by these files) *)
+Definition dict0 : list (string * string) :=
+  [(stag "__TAG_SM_NAME_UPPER__", "X"); (stag "__TAG_SM_NAME_SMALL_CAMEL__", "x"); (stag "__TAG_SM_NAME_SNAKE__", "x"); (stag "__TAG_SM_NAME__", "X");
+   (stag "__TAG_CLASS_NAME__", "X"); (stag "__TAG_CLASS_NAME_SNAKE__", "x"); (stag "__TAG_PyIFGen_NAME__", "Transition Table"); (stag "__TAG_NAMESPACE__", "NS");
+   (stag "__TAG_AUTHOR__", "a"); (stag "__TAG_GROUP__", "g"); (stag "__TAG_BRIEF__", "b"); (stag "__TAG_DECLSPEC_DLL_EXPORT__", "")].
+
 Definition file_of (name : string) (set : list (string * list string)) : list string :=
   match lookup String.eqb name set with Some ls => ls | None => [] end.
+
+(* what the harness evaluates on a generated table: is it in the domain of the for-all-models theorems of the shipped file? *)
+Definition names_ok_shipped (lines : list string) (tt : list EngineSM.row) (structs protos msgs : list string) : bool :=
+  match shipped16 dict0 lines with
+  | Some (_, t) => in_grammar07 t && names_ok t (elements_of (table_of tt) structs protos msgs)
+  | None => false
+  end.
